@@ -6,7 +6,10 @@ from ..runner import Component
 PROPERTY = "C02"
 RULE = ("G-TABLE x G-THRESHOLD x G-CONFIG over the five set joins; non-trivial = the output "
         "has a row over present values and the inputs contain a token-sharing pair outside "
-        "'may' (a wrong comparison would have admitted it); distinct = case digests")
+        "'may' (a wrong comparison would have admitted it); 'E1-sound': E1 size-sweep batch tables "
+        "x three operators, every returned row must be an instance pair with its true score; "
+        "'dense': all-subsets tables where every left row is a candidate of every right row; "
+        "distinct = case digests")
 ASSUMPTIONS = ["py_stringmatching tokenizers are correct (fresh instance used by the oracle)",
                "score tolerance for JACCARD/COSINE/DICE: 4-decimal value within 5e-5+1e-9 of "
                "an admitted double; exact for overlap coefficient and overlap"]
